@@ -1,10 +1,19 @@
 use crate::Ctx;
 
 pub mod c01;
+pub mod c02;
+pub mod c03;
+pub mod c05;
+pub mod c09;
+pub mod util;
 
 pub fn run(ctx: &mut Ctx) -> Result<(), String> {
     match ctx.prop.as_str() {
         "C01" => c01::run(ctx),
+        "C02" => c02::run(ctx),
+        "C03" => c03::run(ctx),
+        "C05" => c05::run(ctx),
+        "C09" => c09::run(ctx),
         other => return Err(format!("unknown property {other}")),
     }
     Ok(())
@@ -15,6 +24,10 @@ pub fn run(ctx: &mut Ctx) -> Result<(), String> {
 pub fn rule(prop: &str) -> &'static str {
     match prop {
         "C01" => c01::RULE,
+        "C02" => c02::RULE,
+        "C03" => c03::RULE,
+        "C05" => c05::RULE,
+        "C09" => c09::RULE,
         _ => "",
     }
 }
